@@ -76,6 +76,13 @@ func buildPool() {
 		}
 		hashIdx[poolHash[p]] = p
 	}
+	for p := 0; p < nPayloads; p++ {
+		for q := 0; q < nPayloads; q++ {
+			if bytes.Compare(poolHash[q][:], poolHash[p][:]) < 0 {
+				poolRank[p]++
+			}
+		}
+	}
 }
 
 func bodyOf(ver *common.VersionedTransaction) int {
@@ -86,7 +93,20 @@ func bodyOf(ver *common.VersionedTransaction) int {
 	return id
 }
 
-func hN(p int) string { return vh.BytesAsN(poolHash[p][:]) }
+// A payload hash is sent to the model as 1 + its rank among the pool's hashes in
+// byte order: the model only uses equality and the order of hashes (Badger key
+// order on equal timestamps), both preserved; 77-digit literals are slow to parse.
+var poolRank [nPayloads]int
+
+func hN(p int) string { return vh.NU(uint64(1 + poolRank[p])) }
+
+func hashN(h crypto.Hash) string {
+	p, ok := hashIdx[h]
+	if !ok {
+		return vh.NU(0)
+	}
+	return hN(p)
+}
 
 // ---- store ----------------------------------------------------------------------
 
@@ -272,7 +292,7 @@ func coqObs(o Op, r result) string {
 			if b < 0 {
 				b = 0
 			}
-			el[i] = "(" + vh.BytesAsN(t.hash[:]) + ", " + vh.NU(uint64(b)) + ")"
+			el[i] = "(" + hashN(t.hash) + ", " + vh.NU(uint64(b)) + ")"
 		}
 		return "(RTxs " + vh.Ok(vh.List(el, "(N*N)")) + ")"
 	case "get":
@@ -413,16 +433,16 @@ func runSeq(c *vh.Ctx, cs Case) {
 	st := dump()
 	fq := make([]string, len(st.Queue))
 	for i, e := range st.Queue {
-		fq[i] = "(" + vh.NU(e.Ts) + ", " + vh.BytesAsN(e.Hash[:]) + ")"
+		fq[i] = "(" + vh.NU(e.Ts) + ", " + hashN(e.Hash) + ")"
 	}
 	fo := make([]string, len(st.Order))
 	for i, h := range st.Order {
-		fo[i] = vh.BytesAsN(h[:])
+		fo[i] = hashN(h)
 	}
 	fp := make([]string, len(st.Payload))
 	for i, p := range st.Payload {
 		b := bodyID[string(p.Value)]
-		fp[i] = "(" + vh.BytesAsN(p.Hash[:]) + ", " + vh.NU(uint64(b)) + ")"
+		fp[i] = "(" + hashN(p.Hash) + ", " + vh.NU(uint64(b)) + ")"
 	}
 	term := ""
 	if modelOK {
@@ -441,6 +461,8 @@ type event struct {
 	o Op
 	r result
 }
+
+var concOps, concErrs, concReturns, concOverlap int
 
 func runConcOnce(c *vh.Ctx, cs Case) bool {
 	if err := store.VerifC23Clear(); err != nil {
@@ -476,6 +498,11 @@ func runConcOnce(c *vh.Ctx, cs Case) bool {
 	any := false
 	for _, l := range logs {
 		for _, e := range l {
+			concOps++
+			if e.r.err {
+				concErrs++ // badger.ErrConflict after the code's own retries: the call wrote nothing
+			}
+			concReturns += len(e.r.txs)
 			if e.o.K == "retrieve" {
 				checkRetrieval(c, cs, a, e.o, e.r, false)
 				any = any || len(e.r.txs) > 0
@@ -677,5 +704,7 @@ func main() {
 		run(c, genConc(rc))
 	}
 	_ = sort.Ints
+	c.Note(fmt.Sprintf("concurrent part: %d calls from 8 goroutines, %d returned a transaction-conflict error (no effect), %d transactions returned by racing retrievals",
+		concOps, concErrs, concReturns))
 	c.Finish()
 }
